@@ -64,8 +64,12 @@ Definition integrate_vals (ws : list R) (x1 x2 : R) (ys : list R) : R :=
 
 (* the function integrator called the user function on the mapped abscissae (xi) and returned
    the weighted sum of the values it got back (ys) *)
+(* Abscissae: the statement puts no tolerance on "the mapped abscissae"; a float abscissa cannot
+   be closer to the real one than an ulp of max(|x1|,|x2|), so the rounding allowance is 1e-9 of
+   the MAGNITUDE |x1|+|x2| (>= |x2-x1|), not of the width: for a width-1e-9 interval at x = -1.86
+   one ulp is already 2e-7 widths (false alarm of the first version of this checker). *)
 Definition func_ok (zs ws : list R) (x1 x2 : R) (xi ys : list R) (res : R) : Prop :=
-  Forall2 (fun u z => Rabs (u - (z * ((x2 - x1) / 2) + (x2 + x1) / 2)) <= tol * Rabs (x2 - x1)) xi zs /\
+  Forall2 (fun u z => Rabs (u - (z * ((x2 - x1) / 2) + (x2 + x1) / 2)) <= tol * (Rabs x1 + Rabs x2)) xi zs /\
   exists y, In y ys /\ Rabs (res - integrate_vals ws x1 x2 ys) <= tol * Rabs (x2 - x1) * Rabs y.
 
 (* the data integrator returned the weighted sum of the linearly interpolated table *)
@@ -81,8 +85,8 @@ Definition integrate_vals2 (wx wy : list R) (x1 x2 y1 y2 : R) (zv : list R) : R 
   (x2 - x1) / 2 * ((y2 - y1) / 2) * Rsum (map2 Rmult zv (grid_wR wx wy)).
 
 Definition func2_ok (x wx y wy : list R) (x1 x2 y1 y2 : R) (xg yg zv : list R) (res : R) : Prop :=
-  Forall2 (fun u g => Rabs (u - g) <= tol * Rabs (x2 - x1)) xg (grid_xR x y ((x2 - x1) / 2) ((x2 + x1) / 2)) /\
-  Forall2 (fun u g => Rabs (u - g) <= tol * Rabs (y2 - y1)) yg (grid_yR x y ((y2 - y1) / 2) ((y2 + y1) / 2)) /\
+  Forall2 (fun u g => Rabs (u - g) <= tol * (Rabs x1 + Rabs x2)) xg (grid_xR x y ((x2 - x1) / 2) ((x2 + x1) / 2)) /\
+  Forall2 (fun u g => Rabs (u - g) <= tol * (Rabs y1 + Rabs y2)) yg (grid_yR x y ((y2 - y1) / 2) ((y2 + y1) / 2)) /\
   exists z, In z zv /\
             Rabs (res - integrate_vals2 wx wy x1 x2 y1 y2 zv) <= tol * Rabs (x2 - x1) * Rabs (y2 - y1) * Rabs z.
 
@@ -207,7 +211,7 @@ Definition func_check (zs ws : list dy) (x1 x2 : dy) (xi ys : list dy) (res : dy
   let wid := dabs (dsub x2 x1) in
   let f1 := dhalf (dsub x2 x1) in
   let f2 := dhalf (dadd x2 x1) in
-  forallb2 (fun u z => tol_le (dabs (dsub u (dadd (dmul z f1) f2))) wid) xi zs
+  forallb2 (fun u z => tol_le (dabs (dsub u (dadd (dmul z f1) f2))) (dadd (dabs x1) (dabs x2))) xi zs
   && existsb (fun y => tol_le (dabs (dsub res (dvals ws x1 x2 ys))) (dmul wid (dabs y))) ys.
 
 (* two-dimensional integrator *)
@@ -220,8 +224,8 @@ Definition dvals2 (wx wy : list dy) (x1 x2 y1 y2 : dy) (zv : list dy) : dy :=
 Definition func2_check (x wx y wy : list dy) (x1 x2 y1 y2 : dy) (xg yg zv : list dy) (res : dy) : bool :=
   let widx := dabs (dsub x2 x1) in
   let widy := dabs (dsub y2 y1) in
-  forallb2 (fun u g => tol_le (dabs (dsub u g)) widx) xg (dgrid_x x y (dhalf (dsub x2 x1)) (dhalf (dadd x2 x1)))
-  && forallb2 (fun u g => tol_le (dabs (dsub u g)) widy) yg (dgrid_y x y (dhalf (dsub y2 y1)) (dhalf (dadd y2 y1)))
+  forallb2 (fun u g => tol_le (dabs (dsub u g)) (dadd (dabs x1) (dabs x2))) xg (dgrid_x x y (dhalf (dsub x2 x1)) (dhalf (dadd x2 x1)))
+  && forallb2 (fun u g => tol_le (dabs (dsub u g)) (dadd (dabs y1) (dabs y2))) yg (dgrid_y x y (dhalf (dsub y2 y1)) (dhalf (dadd y2 y1)))
   && existsb (fun z => tol_le (dabs (dsub res (dvals2 wx wy x1 x2 y1 y2 zv))) (dmul (dmul widx widy) (dabs z))) zv.
 
 (* data integrator: linear interpolation divides, so this checker works over Q *)
